@@ -484,6 +484,16 @@ static void gen_edit(vrng_t *r, gedit_t *g, int caseidx) {
       } else {
         g->del_raw[i].level = samelevel >= 0 ? samelevel : (int)vr_uniform(r, NLEVELS);
         g->del_raw[i].number = vr_uniform(r, 4) == 0 && i > 0 ? g->del_raw[i - 1].number + 1 : gen_u64(r, VF_DELNUM);
+        if (i > 0 && vr_uniform(r, 8) == 0) {
+          /* a distinct element that differs from an earlier one only above bit 31 (or by exactly 2^31):
+             an ordering that looks at a truncated difference would merge or misplace the two */
+          size_t j = vr_uniform(r, (uint32_t)i);
+          uint32_t k = vr_uniform(r, 4);
+          g->del_raw[i].level = g->del_raw[j].level;
+          g->del_raw[i].number = g->del_raw[j].number + (k == 0 ? 0x80000000ULL : k == 1 ? 0x100000000ULL : k == 2 ? 0x300000000ULL
+                                                                                    : ((uint64_t)(1 + vr_uniform(r, 1000)) << 32));
+          vh_count("c17_deleted_numbers_aliasing_in_low_32_bits", 1);
+        }
       }
       level_seen[1][g->del_raw[i].level] = 1;
     }
